@@ -610,6 +610,24 @@ macro_rules! common_ops {
             Step::Dec { dst, b, via, .. } => {
                 let p: Option<$P> = $dec(b, *via);
                 $o.f("some", p.is_some());
+                if b.0.len() == 32 {
+                    // the group-trait decoder that "may skip validity checks": on an encoding the checked decoders accept it
+                    // must hand out the same element; on one they refuse, whatever it hands out must satisfy the type's
+                    // raw-coordinate invariant and, for Ristretto, the property's clause that re-encoding a decoded value
+                    // returns the input bytes (C06: no second byte string for a group element through any decoder; for
+                    // Edwards, acceptance of a refused encoding stays undecided). Logged only on failure (the model never
+                    // logs it), so the event log of a correct tree is unchanged.
+                    let u: Option<$P> = Option::from(<$P as GroupEncoding>::from_bytes_unchecked(&b.a32()));
+                    let bad = match (&p, &u) {
+                        (Some(p), Some(q)) => p != q || p.compress() != q.compress() || !q.repr_ok(),
+                        (Some(_), None) => true,
+                        (None, Some(q)) => !q.repr_ok() || (<$P>::IS_RISTRETTO && q.compress().as_bytes()[..] != b.0[..]),
+                        (None, None) => false,
+                    };
+                    if bad {
+                        $o.f("unchecked_decoder_inconsistent", true);
+                    }
+                }
                 match p {
                     Some(p) => {
                         if <$P>::IS_RISTRETTO {
@@ -938,17 +956,25 @@ trait Kind: Sized {
     const IS_RISTRETTO: bool;
     /// the library's public small-order constants (Edwards only)
     fn torsion_const(i: usize) -> Option<Self>;
+    /// raw-coordinate invariant of the (inner) Edwards point
+    fn repr_ok(&self) -> bool;
 }
 impl Kind for EdwardsPoint {
     const IS_RISTRETTO: bool = false;
     fn torsion_const(i: usize) -> Option<Self> {
         Some(constants::EIGHT_TORSION[i])
     }
+    fn repr_ok(&self) -> bool {
+        coords_affine(self).is_ok()
+    }
 }
 impl Kind for RistrettoPoint {
     const IS_RISTRETTO: bool = true;
     fn torsion_const(_i: usize) -> Option<Self> {
         None
+    }
+    fn repr_ok(&self) -> bool {
+        coords_affine(&verif_hooks::ristretto_inner(self)).is_ok()
     }
 }
 
